@@ -537,7 +537,7 @@ def judgeNetwork : P Verdict := do
   if !isTernary M then
     if v == "no" then return .ok s!"{name}:nonternary" else return .fail name "non-ternary matrix reported (co)network"
   -- support graphicness flag
-  if m ≤ graphOracleRows then
+  if supp != "supp=-" && m ≤ graphOracleRows then
     let sg := isGraphic m n (support M)
     if (supp == "supp=yes") != sg then
       return .fail s!"{name}:support" s!"support graphicness reported {supp}, model says {sg}"
@@ -553,21 +553,21 @@ def judgeNetwork : P Verdict := do
       | .ok _ => return .ok s!"{name}:yes:cert"
       | .error e => return .fail s!"{name}:cert" e
   else
-    if m ≤ graphOracleRows then
-      if isNetwork m n M then return .fail s!"{name}:verdict" s!"impl=no model=yes"
-      match sub? with
-      | some (rsI, csI) =>
-        match idxList rsI m0, idxList csI n0 with
-        | some rs, some cs =>
-          -- the violating submatrix lies within M and is itself not a (co)network matrix
-          let S0 := sub M0 rs cs
-          let (sm, sn, S) := if tr == 1 then (cs.length, rs.length, transpose rs.length cs.length S0) else (rs.length, cs.length, S0)
-          if !(noDup rs && noDup cs) then return .fail s!"{name}:violator" "violator repeats a line"
-          if isNetwork sm sn S then return .fail s!"{name}:violator" s!"returned submatrix rows {rs} cols {cs} is a (co)network matrix"
-          return .ok s!"{name}:no:violator"
-        | _, _ => return .fail s!"{name}:violator" "violator indices out of range"
-      | none => return .ok s!"{name}:no"
-    else return .skip s!"{name}:no-large"
+    if m ≤ graphOracleRows && isNetwork m n M then return .fail s!"{name}:verdict" s!"impl=no model=yes"
+    -- a returned violating submatrix is validated at any size of M (as long as the violator itself is within oracle size)
+    match sub? with
+    | some (rsI, csI) =>
+      match idxList rsI m0, idxList csI n0 with
+      | some rs, some cs =>
+        -- the violating submatrix lies within M and is itself not a (co)network matrix
+        let S0 := sub M0 rs cs
+        let (sm, sn, S) := if tr == 1 then (cs.length, rs.length, transpose rs.length cs.length S0) else (rs.length, cs.length, S0)
+        if !(noDup rs && noDup cs) then return .fail s!"{name}:violator" "violator repeats a line"
+        if sm > graphOracleRows then return .skip s!"{name}:no:violator-large"
+        if isNetwork sm sn S then return .fail s!"{name}:violator" s!"returned submatrix rows {rs} cols {cs} is a (co)network matrix"
+        return .ok s!"{name}:no:violator"
+      | _, _ => return .fail s!"{name}:violator" "violator indices out of range"
+    | none => if m ≤ graphOracleRows then return .ok s!"{name}:no" else return .skip s!"{name}:no-large"
 
 /-- Is `M` the fundamental-cycle matrix of `g` for some spanning forest, up to the order of rows and of columns?  (The contract of the
 representation-matrix functions when no forest, or a list that is no spanning forest, is offered: "a network matrix of D is computed
@@ -1496,6 +1496,21 @@ def judgeLine (line : String) : Verdict :=
           | .skip t => if L.status == "ok" then .ok s!"{t}:by-construction:{w}" else .skip t
           | v => v
       | v, _, _ => v
+    -- "@root-graphic=yes" / "@root-cographic=yes": the matrix is (co)graphic by construction; a tree whose root claims the opposite lies
+    let rootFlag (k : Nat) : Option String :=        -- k-th header field of the root node of a dumped tree ("T { type tern reg gra cogra …")
+      match L.payload.idxOf? "T" with
+      | some i => if L.payload.getD (i + 1) "" == "{" then some (L.payload.getD (i + 2 + k) "") else none
+      | none => none
+    let v : Verdict :=
+      match v with
+      | .fail t m => .fail t m
+      | .badOp m => .badOp m
+      | v =>
+        if mods.contains "@root-graphic=yes" && rootFlag 3 == some "-1" then
+          .fail "tree:root-graphicness" "the root claims 'not graphic' for a matrix that is graphic by construction"
+        else if mods.contains "@root-cographic=yes" && rootFlag 4 == some "-1" then
+          .fail "tree:root-cographicness" "the root claims 'not cographic' for a matrix that is cographic by construction"
+        else v
     match v, generic with
     | .fail t m, _ => .fail t m
     | .badOp m, _ => .badOp m
